@@ -86,7 +86,7 @@ def body(h):
 def body_in_handler(h):
     """CLEAR / NEW / RUN n executed inside an active error handler: no pending RESUME is left"""
     cmd = h.params['cmd']
-    prog = [b'10 ON ERROR GOTO 100', b'20 ERROR 9', b'30 END', b'100 ' + cmd, b'110 END', b'200 END']
+    prog = [b'10 ON ERROR GOTO 100', b'20 ERROR 9', b'30 END', b'100 ' + cmd + b': RESUME NEXT', b'200 RESUME NEXT']
     impl = session.mk_impl(h)
     for l in prog:
         impl.execute(l)
@@ -95,7 +95,8 @@ def body_in_handler(h):
     impl.scalars._vars[b'Z%'][:] = z
     impl.execute(b'GOTO 10')
     it = impl.interpreter
-    impl.execute(b'RESUME NEXT')
+    # the RESUME NEXT that follows the command (same line for CLEAR, line 200 for RUN 200) finds no
+    # pending error any more
     h.require('resume-without-error-after-reset', it.error_num == 20)
     return [it.error_num]
 
